@@ -554,6 +554,8 @@ pub struct CallLog {
     pub mode_emit: bool,
     /// 0 = succeeded / yielded an item, 1 = iterator stub reported "no more items", 2 = failed
     pub kind: u8,
+    /// ghost: how many `recurse` (stack growth) guards were active when the stub was entered
+    pub rdepth: usize,
 }
 #[derive(Clone, Debug)]
 pub struct VState {
@@ -673,6 +675,30 @@ pub fn ok_with<M: VMode, T: Copy + PartialEq>(r: &PResult<M, T>, v: T) -> bool {
         },
         Err(()) => false,
     }
+}
+
+// ---------------------------------------------------------------------------------------------
+// Ghost nesting depth of `recursive::recurse` (the function that grows the stack before a recursive
+// parser re-enters its definition; `stacker::maybe_grow(.., f)` with the stacker feature, `f()` in the
+// build verified here). Entered through the cfg-guarded hook inside `recurse`.
+// ---------------------------------------------------------------------------------------------
+static RECURSE_DEPTH: core::sync::atomic::AtomicUsize = core::sync::atomic::AtomicUsize::new(0);
+pub struct RecurseGuard;
+impl RecurseGuard {
+    #[inline]
+    pub fn enter() -> RecurseGuard {
+        RECURSE_DEPTH.fetch_add(1, core::sync::atomic::Ordering::SeqCst);
+        RecurseGuard
+    }
+}
+impl Drop for RecurseGuard {
+    #[inline]
+    fn drop(&mut self) {
+        RECURSE_DEPTH.fetch_sub(1, core::sync::atomic::Ordering::SeqCst);
+    }
+}
+pub fn recurse_depth() -> usize {
+    RECURSE_DEPTH.load(core::sync::atomic::Ordering::SeqCst)
 }
 
 /// How every harness enters the parser under contract: through `Mode::invoke`, i.e. through the
@@ -883,6 +909,7 @@ where
         ctx_seen: inp.ctx.ctx_id(),
         mode_emit: emit,
         kind,
+        rdepth: recurse_depth(),
     };
     if !inp.state.ext.is_null() {
         // SAFETY (harness): points at a local of the harness frame that outlives the parse
